@@ -522,3 +522,267 @@ theorem gaps_pairwise (target order : Key) (t : Trie α) (hwf : WF [] t) :
 end Trie
 
 end KadDHT
+
+namespace KadDHT
+variable {α : Type}
+
+/-! ### AllEntries(t, order) is sorted by `order` -/
+
+theorem orderBefore_go_diverge : ∀ (path a b order : Key) (x : Bool), isPre (path ++ [x]) a = true →
+    isPre (path ++ [!x]) b = true → path.length < order.length →
+    orderBefore.go a b order = (x == bitAt order path.length)
+  | [], a, b, order, x, ha, hb, ho => by
+    cases a with
+    | nil => simp [isPre] at ha
+    | cons a0 a =>
+      cases b with
+      | nil => simp [isPre] at hb
+      | cons b0 b =>
+        cases order with
+        | nil => simp at ho
+        | cons o0 order =>
+          simp only [List.nil_append, isPre, Bool.and_true, beq_iff_eq] at ha hb
+          subst ha hb
+          cases x <;> cases o0 <;> simp [orderBefore.go, bitAt]
+  | p :: path, a, b, order, x, ha, hb, ho => by
+    cases a with
+    | nil => simp [isPre] at ha
+    | cons a0 a =>
+      cases b with
+      | nil => simp [isPre] at hb
+      | cons b0 b =>
+        cases order with
+        | nil => simp at ho
+        | cons o0 order =>
+          simp only [List.cons_append, isPre, Bool.and_eq_true, beq_iff_eq] at ha hb
+          obtain ⟨rfl, ha'⟩ := ha
+          obtain ⟨rfl, hb'⟩ := hb
+          have ih := orderBefore_go_diverge path a b order x ha' hb' (by simpa using ho)
+          simp only [orderBefore.go, bne_self_eq_false, Bool.false_eq_true, ↓reduceIte, ih]
+          simp [bitAt]
+
+namespace Trie
+
+/-- the entries come out in the order induced by `order` (for an order key at least as long as the trie is deep):
+    of two entries the one that agrees with `order` at their first differing bit comes first -/
+theorem entriesAt_sorted (order : Key) : ∀ (t : Trie α) (path : Key), WF path t → path.length + t.height ≤ order.length →
+    ((entriesAt order path.length t).map (·.1)).Pairwise (fun a b => orderBefore order a b = true) := by
+  intro t
+  induction t with
+  | empty => intro path _ _; simp [entriesAt]
+  | leaf k d => intro path _ _; simp [entriesAt]
+  | node l r ihl ihr =>
+    intro path hwf hh
+    simp only [height] at hh
+    have hl := ihl (path ++ [false]) hwf.1 (by simp; omega)
+    have hr := ihr (path ++ [true]) hwf.2 (by simp; omega)
+    have hlen : (path ++ [false]).length = path.length + 1 := by simp
+    have hlen' : (path ++ [true]).length = path.length + 1 := by simp
+    rw [hlen] at hl
+    rw [hlen'] at hr
+    have ho : path.length < order.length := by omega
+    have memL : ∀ a ∈ (entriesAt order (path.length + 1) l).map (·.1), isPre (path ++ [false]) a = true := by
+      intro a ha
+      exact hwf.1.mem_isPre ((mem_entriesAt order _ l a).1 ha)
+    have memR : ∀ b ∈ (entriesAt order (path.length + 1) r).map (·.1), isPre (path ++ [true]) b = true := by
+      intro b hb
+      exact hwf.2.mem_isPre ((mem_entriesAt order _ r b).1 hb)
+    simp only [entriesAt]
+    cases hb : bitAt order path.length with
+    | true =>
+      simp only [↓reduceIte, List.map_append]
+      rw [List.pairwise_append]
+      refine ⟨hr, hl, ?_⟩
+      intro b hb' a ha'
+      have := orderBefore_go_diverge path b a order true (memR b hb') (by simpa using memL a ha') ho
+      unfold orderBefore
+      rw [this, hb]; rfl
+    | false =>
+      simp only [Bool.false_eq_true, ↓reduceIte, List.map_append]
+      rw [List.pairwise_append]
+      refine ⟨hl, hr, ?_⟩
+      intro a ha' b hb'
+      have := orderBefore_go_diverge path a b order false (memL a ha') (by simpa using memR b hb') ho
+      unfold orderBefore
+      rw [this, hb]; rfl
+
+end Trie
+end KadDHT
+
+namespace KadDHT
+variable {α : Type}
+
+/-! ### NextNonEmptyLeaf is the cyclic successor in the order induced by `order` -/
+
+/-- for keys of one length the leaf test of `nextNonEmptyLeafAtDepth` is the comparator of the order -/
+theorem orderBefore_eq_cplTest : ∀ (a b order : Key), a.length = b.length → a.length ≤ order.length →
+    orderBefore.go a b order =
+      (decide (cpl a b < a.length) && decide (cpl a b < order.length) && (bitAt order (cpl a b) == bitAt a (cpl a b)))
+  | [], [], order, _, _ => by cases order <;> simp [orderBefore.go, cpl]
+  | [], _ :: _, _, h, _ => by simp at h
+  | _ :: _, [], _, h, _ => by simp at h
+  | x :: a, y :: b, [], _, ho => by simp at ho
+  | x :: a, y :: b, o :: order, h, ho => by
+    by_cases hxy : x = y
+    · subst hxy
+      have ih := orderBefore_eq_cplTest a b order (by simpa using h) (by simpa using ho)
+      simp only [orderBefore.go, bne_self_eq_false, Bool.false_eq_true, ↓reduceIte, ih, cpl, beq_self_eq_true]
+      simp [bitAt]
+    · have : (x == y) = false := by simpa using hxy
+      simp only [orderBefore.go, cpl, this, Bool.false_eq_true, ↓reduceIte]
+      cases x <;> cases y <;> cases o <;> simp_all [bitAt]
+
+namespace Trie
+
+theorem firstLeaf_eq_head (order : Key) : ∀ (t : Trie α) (d : Nat), firstLeaf order d t = (entriesAt order d t).head? := by
+  intro t
+  induction t with
+  | empty => intro d; rfl
+  | leaf k v => intro d; rfl
+  | node l r ihl ihr =>
+    intro d
+    simp only [firstLeaf, entriesAt, ihl, ihr]
+    cases bitAt order d
+    · simp only [Bool.false_eq_true, ↓reduceIte, List.head?_append]
+      cases (entriesAt order (d + 1) l).head? <;> rfl
+    · simp only [↓reduceIte, List.head?_append]
+      cases (entriesAt order (d + 1) r).head? <;> rfl
+
+/-- the first entry after `k` in the order, or (only at the root) the first entry at all when `k` is the last -/
+def specNext (d : Nat) (k order : Key) (es : List (Key × α)) : Option (Key × α) :=
+  match es.find? (fun e => orderBefore order k e.1) with
+  | some e => some e
+  | none => if d == 0 then es.head? else none
+
+theorem find?_all_false {β : Type} (p : β → Bool) (l : List β) (h : ∀ e ∈ l, p e = false) : l.find? p = none := by
+  rw [List.find?_eq_none]
+  intro e he
+  simp [h e he]
+
+theorem find?_head_of_all {β : Type} (p : β → Bool) (l : List β) (h : ∀ e ∈ l, p e = true) : l.find? p = l.head? := by
+  cases l with
+  | nil => rfl
+  | cons a l => simp [List.find?_cons, h a (by simp)]
+
+theorem nextLeafAt_spec (k order : Key) (hko : k.length ≤ order.length) : ∀ (t : Trie α) (d : Nat) (P : Key),
+    WF P t → P.length = d → isPre P k = true → (∀ x ∈ keysL t, x.length = k.length) → d + t.height ≤ k.length →
+    nextLeafAt k order d t = specNext d k order (entriesAt order d t) := by
+  intro t
+  induction t with
+  | empty => intro d P _ _ _ _ _; cases d <;> rfl
+  | leaf k' v =>
+    intro d P _ _ _ hlen _
+    have hl : k'.length = k.length := hlen k' (by simp [keysL])
+    simp only [nextLeafAt, specNext, entriesAt, List.find?_cons, List.find?_nil, List.head?_cons]
+    by_cases hd : d = 0
+    · subst hd
+      simp only [beq_self_eq_true, ↓reduceIte]
+      cases orderBefore order k k' <;> rfl
+    · have hd' : (d == 0) = false := by simpa using hd
+      simp only [hd', Bool.false_eq_true, ↓reduceIte]
+      unfold orderBefore
+      rw [orderBefore_eq_cplTest k k' order hl.symm hko]
+      split <;> rename_i hc
+      · simp only [Bool.and_eq_true, decide_eq_true_eq] at hc
+        simp [hc.1.1, hc.1.2, hc.2]
+      · have : (decide (cpl k k' < k.length) && decide (cpl k k' < order.length) && (bitAt order (cpl k k') == bitAt k (cpl k k'))) = false := by
+          cases hx : (decide (cpl k k' < k.length) && decide (cpl k k' < order.length) && (bitAt order (cpl k k') == bitAt k (cpl k k')))
+          · rfl
+          · exfalso; apply hc; simpa [Bool.and_eq_true] using hx
+        simp [this]
+  | node l r ihl ihr =>
+    intro d P hwf hP hPk hlen hh
+    simp only [height] at hh
+    have hdk : P.length < k.length := by omega
+    have hsn := isPre_snoc_of hPk hdk
+    rw [hP] at hsn
+    have hdo : P.length < order.length := by omega
+    have hlenL : ∀ x ∈ keysL l, x.length = k.length := fun x hx => hlen x (by simp [keysL, hx])
+    have hlenR : ∀ x ∈ keysL r, x.length = k.length := fun x hx => hlen x (by simp [keysL, hx])
+    -- entries of a child lie below the child's path
+    have underL : ∀ e ∈ entriesAt order (d + 1) l, isPre (P ++ [false]) e.1 = true := fun e he =>
+      hwf.1.mem_isPre ((mem_entriesAt order _ l e.1).1 (List.mem_map.2 ⟨e, he, rfl⟩))
+    have underR : ∀ e ∈ entriesAt order (d + 1) r, isPre (P ++ [true]) e.1 = true := fun e he =>
+      hwf.2.mem_isPre ((mem_entriesAt order _ r e.1).1 (List.mem_map.2 ⟨e, he, rfl⟩))
+    -- k against an entry of the other child: decided at bit d
+    have cross : ∀ (b : Bool) (e : Key × α), isPre (P ++ [b]) k = true → isPre (P ++ [!b]) e.1 = true →
+        orderBefore order k e.1 = (b == bitAt order d) := by
+      intro b e hk he
+      unfold orderBefore
+      rw [orderBefore_go_diverge P k e.1 order b hk he hdo, hP]
+    have recL := ihl (d + 1) (P ++ [false]) hwf.1 (by simp [hP])
+    have recR := ihr (d + 1) (P ++ [true]) hwf.2 (by simp [hP])
+    have hd1 : (d + 1 == 0) = false := by simp
+    simp only [nextLeafAt, entriesAt, firstLeaf_eq_head]
+    cases hkb : bitAt k d with
+    | false =>
+      rw [hkb] at hsn
+      have rl := recL hsn hlenL (by omega)
+      simp only [specNext, hd1, Bool.false_eq_true, ↓reduceIte] at rl
+      simp only [Bool.false_eq_true, ↓reduceIte, rl]
+      cases hob : bitAt order d with
+      | false =>
+        -- k's child comes first
+        have allR : ∀ e ∈ entriesAt order (d + 1) r, orderBefore order k e.1 = true := fun e he => by
+          rw [cross false e hsn (by simpa using underR e he), hob]; rfl
+        simp only [Bool.false_eq_true, ↓reduceIte, specNext, List.find?_append, beq_self_eq_true, Bool.true_or]
+        cases hf : (entriesAt order (d + 1) l).find? (fun e => orderBefore order k e.1) with
+        | some e => simp
+        | none =>
+          simp only [Option.none_or, find?_head_of_all _ _ allR]
+          cases hr : (entriesAt order (d + 1) r).head? with
+          | some e => simp
+          | none =>
+            have : entriesAt order (d + 1) r = [] := by simpa using hr
+            simp [this]
+      | true =>
+        -- k's child comes second
+        have noneR : ∀ e ∈ entriesAt order (d + 1) r, orderBefore order k e.1 = false := fun e he => by
+          rw [cross false e hsn (by simpa using underR e he), hob]; rfl
+        simp only [↓reduceIte, specNext, List.find?_append, find?_all_false _ _ noneR, Option.none_or]
+        cases hf : (entriesAt order (d + 1) l).find? (fun e => orderBefore order k e.1) with
+        | some e => simp
+        | none =>
+          simp only [Bool.false_eq_true, Bool.false_or]
+          by_cases hd : d = 0
+          · subst hd
+            simp only [beq_self_eq_true, ↓reduceIte, List.head?_append]
+            cases hr : (entriesAt order (0 + 1) r).head? <;> simp
+          · have hd' : (d == 0) = false := by simpa using hd
+            simp [hd']
+    | true =>
+      rw [hkb] at hsn
+      have rr := recR hsn hlenR (by omega)
+      simp only [specNext, hd1, Bool.false_eq_true, ↓reduceIte] at rr
+      simp only [↓reduceIte, rr]
+      cases hob : bitAt order d with
+      | true =>
+        have allL : ∀ e ∈ entriesAt order (d + 1) l, orderBefore order k e.1 = true := fun e he => by
+          rw [cross true e hsn (by simpa using underL e he), hob]; rfl
+        simp only [↓reduceIte, specNext, List.find?_append, beq_self_eq_true, Bool.true_or]
+        cases hf : (entriesAt order (d + 1) r).find? (fun e => orderBefore order k e.1) with
+        | some e => simp
+        | none =>
+          simp only [Option.none_or, find?_head_of_all _ _ allL]
+          cases hl : (entriesAt order (d + 1) l).head? with
+          | some e => simp
+          | none =>
+            have : entriesAt order (d + 1) l = [] := by simpa using hl
+            simp [this]
+      | false =>
+        have noneL : ∀ e ∈ entriesAt order (d + 1) l, orderBefore order k e.1 = false := fun e he => by
+          rw [cross true e hsn (by simpa using underL e he), hob]; rfl
+        simp only [Bool.false_eq_true, ↓reduceIte, specNext, List.find?_append, find?_all_false _ _ noneL, Option.none_or]
+        cases hf : (entriesAt order (d + 1) r).find? (fun e => orderBefore order k e.1) with
+        | some e => simp
+        | none =>
+          simp only [Bool.true_eq_false, Bool.false_or]
+          by_cases hd : d = 0
+          · subst hd
+            simp only [beq_self_eq_true, ↓reduceIte, List.head?_append]
+            cases hl : (entriesAt order (0 + 1) l).head? <;> simp
+          · have hd' : (d == 0) = false := by simpa using hd
+            simp [hd']
+
+end Trie
+end KadDHT
